@@ -782,3 +782,38 @@ def m_opaque_to_string(engine, ctx, args, callee, frame):
     if fn is not None:
         return engine.run_fn(fn, args)
     raise Untranslatable("call " + callee)
+
+
+@model(r"^(std::vec::)?Vec::<.*>::dedup_by::<|^(std::vec::)?Vec::<.*>::dedup_by_key::<")
+def m_vec_dedup_by(engine, ctx, args, callee, frame):
+    """removes all but the first of consecutive elements for which same_bucket(&mut later, &mut earlier) holds"""
+    v = deref(args[0])
+    if not isinstance(v, VecV):
+        raise Untranslatable("dedup_by on %s" % type(v).__name__)
+    by_key = "dedup_by_key" in callee
+    out = []
+    for c in v.items:
+        if out:
+            if by_key:
+                ka = engine.call_closure(args[1], [Ref(c)])
+                kb = engine.call_closure(args[1], [Ref(out[-1])])
+                same = key_eq(engine, ctx, ka, kb)
+            else:
+                same = ctx.branch(engine.call_closure(args[1], [Ref(c), Ref(out[-1])]))
+            if same:
+                continue
+        out.append(c)
+    v.items[:] = out
+    return unit()
+
+
+@model(r"^(std::cmp::|core::cmp::)?Ordering::(then_with)::<|^(std::cmp::|core::cmp::)?Ordering::(then|reverse)$")
+def m_ordering_then(engine, ctx, args, callee, frame):
+    o = deref(args[0])
+    name = re.search(r"Ordering::(then_with|then|reverse)", callee).group(1)
+    var = o.variant if isinstance(o, EnumV) else {-1: "Less", 0: "Equal", 1: "Greater"}[o.v]
+    if name == "reverse":
+        return M.ordering({"Less": 1, "Equal": 0, "Greater": -1}[var])
+    if var != "Equal":
+        return o
+    return engine.call_closure(args[1], []) if name == "then_with" else args[1]
